@@ -33,13 +33,14 @@ type Feat struct {
 	Deprecated                                                       bool // deprecated spellings (C19)
 	Dense                                                            bool // more resources and referrers per layer
 	Siblings                                                         bool // tree-shaped (not only chain-shaped) layerings
+	Anchors                                                          bool // some workloads use YAML anchors/aliases for their label maps
 	SiblingHeavy, AffixHeavy                                         bool // most trees have siblings / most layers have a prefix or suffix
 	MaxLayers                                                        int
 }
 
 func allFeat() Feat {
 	return Feat{Prefix: true, Suffix: true, Namespace: true, Labels: true, Annotations: true, Images: true, Replicas: true,
-		PatchSM: true, PatchJSON: true, Replacements: false, Generators: true, Refs: true, Siblings: true, MaxLayers: 3}
+		PatchSM: true, PatchJSON: true, Replacements: false, Generators: true, Refs: true, Siblings: true, Anchors: true, MaxLayers: 3}
 }
 
 type GenRes struct {
@@ -218,6 +219,18 @@ func (g *GenRes) clusterScoped() bool {
 		return v
 	}
 	return isClusterScoped(g.Kind)
+}
+
+// hpaTargetVersion: the apiVersion an HPA writes in scaleTargetRef need not be the one the target's manifest uses
+// (served versions of the same kind); the reference is by kind and name.
+func hpaTargetVersion(r *rand.Rand, kind string) string {
+	if r.Intn(3) == 0 {
+		switch kind {
+		case "Deployment", "StatefulSet", "ReplicaSet":
+			return pickS(r, []string{"apps/v1beta2", "extensions/v1beta1", "apps/v1beta1"})
+		}
+	}
+	return apiVersionOf(kind)
 }
 
 func isClusterScoped(kind string) bool {
@@ -543,7 +556,7 @@ func (t *Tree) genReferrers(r *rand.Rand, li int, here []*GenRes, uniq func(kind
 			}
 			id := t.newID()
 			o := Obj{"apiVersion": "autoscaling/v2", "kind": "HorizontalPodAutoscaler", "metadata": meta(id, name, b.NS, nil),
-				"spec": Obj{"maxReplicas": float64(3), "scaleTargetRef": Obj{"apiVersion": apiVersionOf(b.Kind), "kind": b.Kind, "name": b.Name}}}
+				"spec": Obj{"maxReplicas": float64(3), "scaleTargetRef": Obj{"apiVersion": hpaTargetVersion(r, b.Kind), "kind": b.Kind, "name": b.Name}}}
 			g := t.addRes(li, "HorizontalPodAutoscaler", name, b.NS, o)
 			out = append(out, g)
 			e := Edge{From: id, Path: ipath(nil, "spec", "scaleTargetRef", "name"), To: b.ID}
@@ -883,6 +896,9 @@ func (t *Tree) Write(fs filesys.FileSystem, root string) error {
 				if err != nil {
 					return err
 				}
+				if t.Feat.Anchors {
+					b = anchorLabels(d, b)
+				}
 				sb.Write(b)
 			}
 			if err := fs.WriteFile(filepath.Join(dir, fn), []byte(sb.String())); err != nil {
@@ -1038,3 +1054,36 @@ func sortedStrs(m map[string]bool) []string {
 }
 
 var _ = types.Kustomization{}
+
+// anchorLabels rewrites a workload whose metadata labels, selector and template labels are the same single-entry map
+// into the "define the labels once" style: `labels: &lbl {…}`, `matchLabels: *lbl`, template `labels: *lbl`.
+// Chosen deterministically from the document (about one workload in three).
+func anchorLabels(d Obj, b []byte) []byte {
+	kind, _ := d["kind"].(string)
+	switch kind {
+	case "Deployment", "StatefulSet", "DaemonSet", "ReplicaSet":
+	default:
+		return b
+	}
+	md, _ := d["metadata"].(Obj)
+	lb, _ := md["labels"].(Obj)
+	if len(lb) != 1 {
+		return b
+	}
+	app, _ := lb["app"].(string)
+	if app == "" || len(app)%3 != 0 || strings.ContainsAny(app, ":#{}[],&*!|>'\"%@`") {
+		return b
+	}
+	s := string(b)
+	m1 := "  labels:\n    app: " + app + "\n"
+	m2 := "    matchLabels:\n      app: " + app + "\n"
+	m3 := "      labels:\n        app: " + app + "\n"
+	if strings.Count(s, m1) < 1 || strings.Count(s, m2) != 1 || strings.Count(s, m3) != 1 {
+		return b
+	}
+	i := strings.Index(s, m1)
+	s = s[:i] + "  labels: &lbl\n    app: " + app + "\n" + s[i+len(m1):]
+	s = strings.Replace(s, m2, "    matchLabels: *lbl\n", 1)
+	s = strings.Replace(s, m3, "      labels: *lbl\n", 1)
+	return []byte(s)
+}
